@@ -127,29 +127,49 @@ impl<T: ZeroCopy + DeserializeInner, const N: usize> DeserializeHelper<Zero> for
     }
 }
 
+/// The first `.1` items at `.0` have been initialized: they are dropped
+/// unless this guard is forgotten.
+struct Initialized<I>(*mut I, usize);
+
+impl<I> Drop for Initialized<I> {
+    fn drop(&mut self) {
+        unsafe { core::ptr::drop_in_place(core::ptr::slice_from_raw_parts_mut(self.0, self.1)) }
+    }
+}
+
 impl<T: DeepCopy + DeserializeInner, const N: usize> DeserializeHelper<Deep> for [T; N] {
     type FullType = Self;
     type DeserType<'a> = [<T as DeserializeInner>::DeserType<'a>; N];
     #[inline(always)]
     fn _deserialize_full_inner_impl(backend: &mut impl ReadWithPos) -> deser::Result<Self> {
         let mut res = MaybeUninit::<[T; N]>::uninit();
-        unsafe {
-            for item in &mut res.assume_init_mut().iter_mut() {
-                std::ptr::write(item, T::_deserialize_full_inner(backend)?);
-            }
-            Ok(res.assume_init())
+        // Drops the items deserialized so far if an item fails or panics.
+        let mut done = Initialized(res.as_mut_ptr() as *mut T, 0);
+        for i in 0..N {
+            let item = T::_deserialize_full_inner(backend)?;
+            // SAFETY: i < N, so the item is inside the array.
+            unsafe { done.0.add(i).write(item) };
+            done.1 = i + 1;
         }
+        core::mem::forget(done);
+        // SAFETY: all items have been initialized.
+        Ok(unsafe { res.assume_init() })
     }
     #[inline(always)]
     fn _deserialize_eps_inner_impl<'a>(
         backend: &mut SliceWithPos<'a>,
     ) -> deser::Result<<Self as DeserializeInner>::DeserType<'a>> {
         let mut res = MaybeUninit::<<Self as DeserializeInner>::DeserType<'_>>::uninit();
-        unsafe {
-            for item in &mut res.assume_init_mut().iter_mut() {
-                std::ptr::write(item, T::_deserialize_eps_inner(backend)?);
-            }
-            Ok(res.assume_init())
+        // Drops the items deserialized so far if an item fails or panics.
+        let mut done = Initialized(res.as_mut_ptr() as *mut <T as DeserializeInner>::DeserType<'a>, 0);
+        for i in 0..N {
+            let item = T::_deserialize_eps_inner(backend)?;
+            // SAFETY: i < N, so the item is inside the array.
+            unsafe { done.0.add(i).write(item) };
+            done.1 = i + 1;
         }
+        core::mem::forget(done);
+        // SAFETY: all items have been initialized.
+        Ok(unsafe { res.assume_init() })
     }
 }
